@@ -11,15 +11,14 @@ def isHashOp : Expr → Bool
   | _ => false
 
 /-- `visit_numeric_for` (suspicious_reverse_loop.rs:50-67): no step, start is `#…`, end is a number
-token whose text `str::parse::<f32>` reads as `<= 1.0` *or does not read at all*
-(`None <= Some(1.0)`).  The label runs from the start of the start expression to the end of the
+token whose text `str::parse::<f64>` reads (`Ok(end)`) with `end <= 1.0`.  The label runs from the start of the start expression to the end of the
 end expression. -/
 def hook : Node → List Diag
   | .stmt (.numFor _ _ _ a e .none _) =>
     if isHashOp a then
       match e with
       | .num t =>
-        if rustF32LeOne t.text then
+        if rustF64LeOne t.text then
           [{ code := "suspicious_reverse_loop", primary := ⟨a.span.first, t.idx⟩, msg := message }]
         else []
       | _ => []
